@@ -492,6 +492,66 @@ func (g *gen) retypedCase() *Case {
 		h2 = held(f.in[a]) // the same type again
 	}
 	var d Decl
+	if r.Chance(1, 2) {
+		// the value at the END of the source path (an interface-typed slot) has the type of the target in one
+		// request and another type, or is nil, in the other: the run-time check must judge every request on its own
+		leaf := func(ty string) *V {
+			if ty == "int" {
+				return vInt(int64(r.Range(1, 40)))
+			}
+			return vStr(strPool[1+r.Intn(len(strPool)-1)])
+		}
+		other := "string"
+		if f.ty == "string" {
+			other = "int"
+		}
+		v1, v2 := leaf(f.ty), leaf(other)
+		if r.Chance(1, 3) {
+			v2 = vNil()
+		}
+		if r.Chance(1, 2) {
+			v1, v2 = v2, v1
+		}
+		switch r.Intn(5) {
+		case 0:
+			// two steps below the interface-typed field H (an "intermediate interface" of the static check)
+			o1, o2 := g.value("Outer", 1), g.value("Outer", 1)
+			i1, i2 := g.value("Inner", 1), g.value("Inner", 1)
+			n1, n2 := vMap("any"), vMap("any")
+			n1.F["a"], n2.F["a"] = v1, v2
+			i1.F["Z"], i2.F["Z"] = n1, n2
+			o1.F["H"], o2.F["H"] = i1, i2
+			d = Decl{S: "Outer", Val: o1, Val2: o2, Maps: []Mapping{{From: []string{"H", "Z", "a"}, To: tp.path}}}
+		case 1:
+			m1, m2 := vMap("any"), vMap("any")
+			m1.F["k"], m2.F["k"] = v1, v2
+			d = Decl{S: "map[string]any", Val: m1, Val2: m2, Maps: []Mapping{{From: []string{"k"}, To: tp.path}}}
+		case 2:
+			m1, m2 := vMap("any"), vMap("any")
+			n1, n2 := vMap("any"), vMap("any")
+			n1.F["a"], n2.F["a"] = v1, v2
+			m1.F["k"], m2.F["k"] = n1, n2
+			d = Decl{S: "map[string]any", Val: m1, Val2: m2, Maps: []Mapping{{From: []string{"k", "a"}, To: tp.path}}}
+		case 3:
+			m1, m2 := vMap("any"), vMap("any")
+			n1, n2 := vMap("any"), vMap("any")
+			l1, l2 := vMap("any"), vMap("any")
+			l1.F["b"], l2.F["b"] = v1, v2
+			n1.F["a"], n2.F["a"] = l1, l2
+			m1.F["k"], m2.F["k"] = n1, n2
+			d = Decl{S: "map[string]any", Val: m1, Val2: m2, Maps: []Mapping{{From: []string{"k", "a", "b"}, To: tp.path}}}
+		default:
+			i1, i2 := g.value("Inner", 1), g.value("Inner", 1)
+			i1.F["Z"], i2.F["Z"] = v1, v2
+			d = Decl{S: "any", Val: i1, Val2: i2, Maps: []Mapping{{From: []string{"Z"}, To: tp.path}}}
+		}
+		c := &Case{T: T, Short: r.Chance(1, 2), Note: "retyped-leaf", Decls: []Decl{d}}
+		if r.Chance(1, 2) {
+			used := [][]string{tp.path}
+			c.Decls = append(c.Decls, g.decl(T, tpaths, 1, &used))
+		}
+		return c
+	}
 	switch r.Intn(4) {
 	case 0:
 		o1, o2 := g.value("Outer", 1), g.value("Outer", 1)
